@@ -6,14 +6,14 @@ from fractions import Fraction
 from hypothesis import strategies as st
 
 from vlib import gen
-from vlib.runner import Stats, Violation, sut
+from vlib.runner import Stats, Violation, plain_stack, sut
 
 ID = "C13"
 DETERMINISTIC = True  # pure in-memory functions judged by a pure oracle: see runner (a failure seen once counts)
 RULE = (
     "case = instant (int us 1970..2100, boundary-biased) x UTC offset (whole minutes in [-14h,+14h]) x presentation "
     "(aware datetime at a fixed offset | aware datetime in a real DST-observing zone from zoneinfo, instants biased to the repeated/skipped hour so that fold=1 occurs | ISO-8601 spelling: T/space, 0/3/6 fraction digits, Z, +hh:mm, +hhmm; minimal fractions such as .5 or .87), given to the constructor and by assignment to an existing event; x duration (int s | float s | timedelta, "
-    "negative allowed, |d| <= 1e7 s) x JSON data x id (None|int|str). Oracle: integer-arithmetic ms floor, exact-rational duration "
+    "negative allowed, |d| <= 1e7 s) x JSON data (one case in four with a value nested 120, 600 or 900 levels deep: class 'deeply_nested_data') x id (None|int|str). Oracle: integer-arithmetic ms floor, exact-rational duration "
     "rounding (<= 1/2 us), schema validation with date-time format checking, equality+id after JSON and Event(**event) round trips. "
     "Non-trivial = (us % 1000 != 0 and offset != 0) or a float duration that is not an exact multiple of 1 us. Distinct by SHA-1 of the case. "
     "Extra phase: the ms floor is enumerated for all 10^6 microsecond values at fixed seconds (classes 'floor:*')."
@@ -73,6 +73,8 @@ def _plain_at(us, off):
             "style": st.integers(0, 31),
             "dur": _durations(),
             "data": gen.json_data(8),
+            # valid JSON nested far deeper than a person writes (only the depth is drawn; the value is built in _full_data)
+            "deep": st.sampled_from([0] * 9 + [120, 600, 900]),
             "id": st.one_of(st.none(), st.integers(0, 2**40), gen.texts(4)),
         }
     )
@@ -110,8 +112,21 @@ def _check_ts(e, us, what):
         raise Violation(f"{what}: instant {us} us should floor to {_expected_us(us)} us, event holds {got} us")
 
 
+def _full_data(case):
+    data = json.loads(json.dumps(case["data"]))
+    n = case.get("deep") or 0
+    if n:
+        x = "leaf"
+        for i in range(n):
+            x = [x, i] if i % 2 else {"k": x}
+        data["blob"] = x
+    return data
+
+
 def run_case(case):
     from aw_core.models import Event
+
+    expdata = _full_data(case)
 
     us, off = case["us"], case["off"]
     if case["present"] == "dt":
@@ -134,46 +149,46 @@ def run_case(case):
     else:
         durin = dv
         exact = Fraction(dv) * 10**6
-    data = json.loads(json.dumps(case["data"]))
-    with sut("constructing Event"):
+    data = _full_data(case)
+    with sut("constructing Event"), plain_stack(bool(case.get("deep"))):
         e = Event(id=case["id"], timestamp=tsin, duration=durin, data=data)
     _check_ts(e, us, f"Event(timestamp={tsin!r})")
     # ... however it is given: also by assignment to an existing event
-    with sut("event.timestamp = ..."):
-        ea = Event(id=case["id"], timestamp=gen.dt_utc(86400 * 10**6), duration=durin, data=json.loads(json.dumps(case["data"])))
+    with sut("event.timestamp = ..."), plain_stack(bool(case.get("deep"))):
+        ea = Event(id=case["id"], timestamp=gen.dt_utc(86400 * 10**6), duration=durin, data=_full_data(case))
         ea.timestamp = tsin
     _check_ts(ea, us, f"event.timestamp = {tsin!r}")
     if not (ea == e):
-        raise Violation(f"an event whose timestamp was assigned differs from one constructed with it: {dict(ea)!r} vs {dict(e)!r}")
+        raise Violation(f"an event whose timestamp was assigned differs from one constructed with it: {repr(dict(ea))[:3000]} vs {repr(dict(e))[:3000]}")
     d = e.duration
     if not isinstance(d, timedelta):
         raise Violation(f"duration is not a timedelta: {d!r}")
     got = gen.td_us(d)
     if abs(Fraction(got) - exact) > Fraction(1, 2) + Fraction(1, 10**6):
         raise Violation(f"duration {dk} {dv!r} = {float(exact)} us held as {got} us")
-    if e.data != case["data"] or e.id != case["id"]:
+    if e.data != expdata or e.id != case["id"]:
         raise Violation("data or id changed by construction")
     # JSON form validates against the published schema
-    with sut("to_json_dict"):
+    with sut("to_json_dict"), plain_stack(bool(case.get("deep"))):
         jd = e.to_json_dict()
     try:
         _validate(jd)
     except Exception as ex:
-        raise Violation(f"JSON form does not validate against the event schema: {type(ex).__name__}: {str(ex)[:300]}; json={jd!r}")
+        raise Violation(f"JSON form does not validate against the event schema: {type(ex).__name__}: {str(ex)[:300]}; json={repr(jd)[:3000]}")
     if not isinstance(jd.get("timestamp"), str) or not isinstance(jd.get("duration"), (int, float)):
         raise Violation(f"JSON form has wrong field types: {jd!r}")
     # round trips
-    with sut("Event(**json.loads(to_json_str()))"):
+    with sut("Event(**json.loads(to_json_str()))"), plain_stack(bool(case.get("deep"))):
         e2 = Event(**json.loads(e.to_json_str()))
-    with sut("Event(**event)"):
+    with sut("Event(**event)"), plain_stack(bool(case.get("deep"))):
         e3 = Event(**e)
     for name, x in (("JSON round trip", e2), ("Event(**event)", e3)):
         if not (x == e):
-            raise Violation(f"{name} gives a different event: {dict(x)!r} vs {dict(e)!r}")
+            raise Violation(f"{name} gives a different event: {repr(dict(x))[:3000]} vs {repr(dict(e))[:3000]}")
         if x.id != e.id:
             raise Violation(f"{name} changes the id: {x.id!r} vs {e.id!r}")
-        if gen.to_us(x.timestamp) != _expected_us(us) or gen.td_us(x.duration) != got or x.data != case["data"]:
-            raise Violation(f"{name} changed a field: {dict(x)!r} vs {dict(e)!r}")
+        if gen.to_us(x.timestamp) != _expected_us(us) or gen.td_us(x.duration) != got or x.data != expdata:
+            raise Violation(f"{name} changed a field: {repr(dict(x))[:3000]} vs {repr(dict(e))[:3000]}")
         _check_ts(x, us, name)
     nontrivial = (us % 1000 != 0 and off != 0) or (dk == "float" and exact.denominator != 1)
     classes = [case["present"], "dur_" + dk]
@@ -183,6 +198,8 @@ def run_case(case):
         classes.append("sub_ms")
     if off:
         classes.append("offset_nonzero")
+    if case.get("deep"):
+        classes.append("deeply_nested_data")
     if dk != "td" and dv < 0 or dk == "td" and dv < 0:
         classes.append("negative_duration")
     return {"nontrivial": nontrivial, "classes": classes, "evals": 1}
